@@ -116,6 +116,10 @@ def relation_cases(rnd):
         nums = [1, 2, 3]
         for r in (2, 5):
             yield (f"{op} int-list", {"type": "value", "key": "k", "op": op, "value": nums}, r, REL[op](r, nums), "present" if r in nums else "absent")
+        # a value list mixing strings and numbers (Custodian policies do that: protocol -1 or "tcp")
+        mixed = rnd.choice([[-1, "tcp"], ["tcp", -1], [22, "ssh", 443], ["a", 1, "b", 2]])
+        for r in (mixed[0], mixed[-1], "udp", 5):
+            yield (f"{op} mixed-list", {"type": "value", "key": "k", "op": op, "value": mixed}, r, REL[op](r, mixed), "present" if r in mixed else "absent")
     for r, v in ((["a", "b"], "a"), (["a", "b"], "z"), ([], "a"), ("hello", "ell"), ("hello", "xyz")):
         yield ("contains", {"type": "value", "key": "k", "op": "contains", "value": v}, r, REL["contains"](r, v), "present" if v in r else "absent")
     for r, v in (("abc", "a*"), ("abc", "b*"), ("abc", "a?c"), ("abc", "[a-b]bc"), ("abc", "abc"), ("abd", "ab[!d]")):
